@@ -166,11 +166,7 @@ func (g *DocGen) payload(depth int, top bool) interface{} {
 	case 0:
 		return g.text()
 	case 1:
-		v := g.num()
-		if top && v == 0 {
-			return float64(7)
-		}
-		return v
+		return g.num() // zero is a legitimate payload (nothing in the normal form excludes the number 0)
 	case 2:
 		return true
 	case 3:
@@ -201,7 +197,7 @@ func (g *DocGen) payload(depth int, top bool) interface{} {
 
 // extension names
 func (g *DocGen) extName() string {
-	suffix := []string{"foo", "nullable", "order", "go-name", "é", "a\"b", "a\\b", "", "a/b", "x-", "ms-enum", "0"}
+	suffix := []string{"foo", "nullable", "order", "go-name", "é", "a\"b", "a\\b", "", "a/b", "x-", "ms-enum", "0", "Go-Name", "UPPER"}
 	return "x-" + g.pick(suffix)
 }
 
